@@ -20,6 +20,9 @@ theorem below rests on it (through `fzRebuilt_true`), so a decorator that starts
 
 /-- **generated fact**: the decorator leaves the copy protocol of the class alone -/
 theorem cfg_no_copy_hooks : copyProtocolHooks = [] := by decide
+/-- the `deepcopy(...)` of `deep_copy_with` is the bare `copy.deepcopy`, outside any `try`: what it raises for a value that cannot be
+    deep-copied reaches the caller (re-read from the source on every run) -/
+theorem cfg_deepcopy_bare : deepcopyBare = true := by decide
 
 /-- … hence `copy.deepcopy` rebuilds instances of frozen dataclasses (`object.__reduce_ex__` / `copy._reconstruct`) -/
 theorem fzRebuilt_true : fzRebuilt = true := by simp [fzRebuilt, cfg_no_copy_hooks]
@@ -281,6 +284,20 @@ theorem layer_frozen (l : Layer) : l.frozen = true := frozen_source_shape.1 _ _ 
 theorem layer_effOrder (l : Layer) : l.effOrder = l.order := frozen_source_shape.2.1 _ _ _ _
 theorem layer_effSlots (l : Layer) : l.effSlots = l.slots := frozen_source_shape.2.2.2.1 _ _ _ _
 
+/-- **a class that derives from an ordinary non-frozen `@dataclass` is never decorated**: whatever options are written at `@frozen_dataclass`,
+    `dataclass()` receives `frozen=True` (`frozen_source_shape`) and refuses the definition — the decoration raises, no class exists whose
+    instances could accept an assignment.  (With `frozen` dropped from the call the same definition would go through as a mutable class.) -/
+theorem nonfrozen_dataclass_base_refused (l : Layer) : Hazard.nonFrozenDataclassBase.refused l = true := by
+  simp [Hazard.refused, layer_frozen]
+
+theorem defOkH_refused (l : Layer) (rest : Cls) (h : Hazard) (hs : List Hazard) (hd : l.decorated = true) (hr : h.refused l = true) :
+    defOkH (l :: rest) (h :: hs) = false := by
+  simp [defOkH, hd, hr]
+
+/-- `order=True` next to a `__lt__` of the class body, `slots=True` next to a `__slots__` of the class body: refused exactly then -/
+theorem own_lt_refused_iff (l : Layer) : Hazard.ownLt.refused l = l.order := by simp [Hazard.refused, layer_effOrder]
+theorem own_slots_refused_iff (l : Layer) : Hazard.ownSlots.refused l = l.slots := by simp [Hazard.refused, layer_effSlots]
+
 /-! ## immutability
 
 What stands between an assignment / deletion and `object.__setattr__` / `object.__delattr__` is the `__setattr__` / `__delattr__` that
@@ -496,6 +513,147 @@ theorem reclass_unfreezes_on_undecorated_subclass :
      | .error _ => false) = true ∧
     raisedBy (delattr witnessSub nameClass) = some .typeError := by decide
 
+
+/-! ### the guard, tight
+
+`inFrozenGuard` looks at the nearest decorated class only; in a mixed hierarchy (an undecorated head above a slot-free decorated class above a
+`slots=True` decorated class) it is false although the chain of generated methods does reject a new name (the walk reaches the slots class).
+The tight guard is the walk itself; in closed form: the instance's own class is decorated, or the name is a field, or SOME decorated class of
+the hierarchy has `slots=True`. -/
+
+def frozenGuard (self : Inst) (name : Name) : Bool := (frozenWalk name true self.cls).isSome
+
+def tightGuardB (h : Bool) (c : Cls) (name : Name) : Bool :=
+  (h && (match c with | l :: _ => l.decorated && !l.slots | [] => false)) || (fieldNames c).contains name ||
+    c.any (fun l => l.decorated && l.slots)
+
+theorem frozenWalk_isSome (name : Name) : ∀ (c : Cls) (h : Bool), (frozenWalk name h c).isSome = tightGuardB h c name := by
+  intro c
+  induction c with
+  | nil => intro h; simp [frozenWalk, tightGuardB, fieldNames, fieldsOf]
+  | cons l rest ih =>
+    intro h
+    by_cases hd : l.decorated = true
+    · simp only [frozenWalk, hd, layer_frozen, layer_effSlots, Bool.not_true, Bool.false_or, Bool.false_eq_true, ↓reduceIte]
+      by_cases h1 : ((h && !l.slots) || (fieldNames (l :: rest)).contains name) = true
+      · simp only [h1, ↓reduceIte, Option.isSome_some, tightGuardB, hd, Bool.true_and, List.any_cons]
+        simp only [Bool.or_eq_true, Bool.and_eq_true] at h1
+        rcases h1 with ⟨a, b⟩ | b
+        · simp [a, b]
+        · simp [b]
+      · have h1' : ((h && !l.slots) || (fieldNames (l :: rest)).contains name) = false := by simpa using h1
+        simp only [h1', Bool.false_eq_true, ↓reduceIte]
+        simp only [Bool.or_eq_false_iff] at h1'
+        obtain ⟨ha, hb⟩ := h1'
+        by_cases hs : l.slots = true
+        · simp [hs, tightGuardB, hd]
+        · have hs' : l.slots = false := by simpa using hs
+          have hh : h = false := by simpa [hs'] using ha
+          have hrest : (fieldNames rest).contains name = false := by
+            cases hc : (fieldNames rest).contains name with
+            | false => rfl
+            | true =>
+              have := fieldNames_mono l rest name (by simpa using hc)
+              have : (fieldNames (l :: rest)).contains name = true := by simpa using this
+              rw [hb] at this; cases this
+          simp only [hs', Bool.false_eq_true, ↓reduceIte]
+          rw [ih false]
+          have hb' : decide (name ∈ fieldNames (l :: rest)) = false := by simpa using hb
+          have hrest' : decide (name ∈ fieldNames rest) = false := by simpa using hrest
+          simp [hs', tightGuardB, hd, hh, hb', hrest']
+    · have hd' : l.decorated = false := by simpa using hd
+      simp only [frozenWalk, hd', Bool.not_false, Bool.true_or, ↓reduceIte]
+      rw [ih false]
+      have hf : fieldNames (l :: rest) = fieldNames rest := by simp [fieldNames, fieldsOf, hd']
+      simp [tightGuardB, hd', hf]
+
+/-- the tight guard in closed form -/
+theorem frozenGuard_iff (self : Inst) (name : Name) :
+    frozenGuard self name = ((match self.cls with | l :: _ => l.decorated | [] => false) || (fieldNames self.cls).contains name ||
+      self.cls.any (fun l => l.decorated && l.slots)) := by
+  unfold frozenGuard
+  rw [frozenWalk_isSome]
+  unfold tightGuardB
+  cases hc : self.cls with
+  | nil => simp
+  | cons l rest =>
+    simp only [Bool.true_and, List.any_cons]
+    cases l.decorated <;> cases l.slots <;> simp
+
+/-- the old guard implies the tight one -/
+theorem inFrozenGuard_imp (self : Inst) (name : Name) (h : inFrozenGuard self name = true) : frozenGuard self name = true := by
+  rw [frozenGuard_iff]
+  simp only [inFrozenGuard, nearestSlots, Bool.or_eq_true] at h
+  simp only [Bool.or_eq_true]
+  rcases h with (h | h) | h
+  · exact Or.inl (Or.inl h)
+  · exact Or.inl (Or.inr h)
+  · have : self.cls.any (fun l => l.decorated && l.slots) = true := by
+      revert h
+      generalize self.cls = c
+      induction c with
+      | nil => simp [decoratedPart]
+      | cons l rest ih =>
+        by_cases hd : l.decorated = true
+        · simp [decoratedPart, hd]; intro hs; simp [hs]
+        · have hd' : l.decorated = false := by simpa using hd
+          simp only [decoratedPart, hd', Bool.false_eq_true, ↓reduceIte, List.any_cons, Bool.false_and, Bool.false_or]
+          exact ih
+    exact Or.inr this
+
+/-- **C11, immutability, under the tight guard**: whenever the chain of generated methods stops the operation — the instance's class is
+    decorated, the name is a field, or any decorated class of the hierarchy has `slots=True` — assignment and deletion raise -/
+theorem frozen_rejects_set_del (self : Inst) (name : Name) (v : Obj) (hg : frozenGuard self name = true) :
+    rejected (setattr self name v) = true ∧ rejected (delattr self name) = true := by
+  unfold frozenGuard at hg
+  cases hw : frozenWalk name true self.cls with
+  | none => simp [hw] at hg
+  | some e => simp [setattr, delattr, attrGate_std, hw, rejected]
+
+/-- **… and the guard is exact for assignment**: outside it (on a class hierarchy with at least one class) every assignment is accepted —
+    the complement of the guard IS the region of the finding `undecoratedSubclassAllowsNewAttributes` -/
+theorem setattr_rejected_iff_guard (self : Inst) (name : Name) (v : Obj) (hne : self.cls ≠ []) :
+    rejected (setattr self name v) = frozenGuard self name := by
+  cases hg : frozenGuard self name with
+  | true => exact (frozen_rejects_set_del self name v hg).1
+  | false =>
+    have hw : frozenWalk name true self.cls = none := by
+      unfold frozenGuard at hg
+      cases h : frozenWalk name true self.cls with
+      | none => rfl
+      | some e => simp [h] at hg
+    rw [frozenGuard_iff] at hg
+    cases hc : self.cls with
+    | nil => exact absurd hc hne
+    | cons l rest =>
+      simp only [hc, Bool.or_eq_false_iff] at hg
+      obtain ⟨⟨hd, hf⟩, hs⟩ := hg
+      have hdict : hasDict (l :: rest) = true := by simp [hasDict, hd]
+      rw [hc] at hw
+      simp only [setattr, attrGate_std, hc, hw, hf, Bool.false_eq_true, ↓reduceIte, hdict, Bool.not_true]
+      repeat' split
+      all_goals rfl
+
+/-- deletion: rejected inside the guard; outside it the guard is not the whole story (`del inst.__class__` is a TypeError of `object`, a name
+    that is not set an AttributeError) -/
+example : frozenGuard witnessSub nameClass = false ∧ rejected (delattr witnessSub nameClass) = true := by decide
+
+/-- the mixed hierarchy of the audit: undecorated head, slot-free decorated class, `slots=True` decorated base — the old guard is false, the
+    tight one true, a new name is rejected (TypeError) -/
+def witnessMixed : Inst :=
+  ⟨[⟨3, false, false, false, true, false, false, []⟩, ⟨2, true, false, false, true, false, false, []⟩,
+    ⟨0, true, false, false, true, true, false, [⟨0, .none, true, true⟩]⟩], [(0, .atom (.int 1))], []⟩
+example : inFrozenGuard witnessMixed 100 = false ∧ frozenGuard witnessMixed 100 = true ∧
+    raisedBy (setattr witnessMixed 100 (.atom .none)) = some .typeError := by decide
+
+/-- **region `slotsNewAttributeRaisesTypeError`**: below a `slots=True` class an assignment to a name that is not a field is rejected — with
+    TypeError (`super(cls, self)` of the generated method refers to the class that `_add_slots` replaced), not with FrozenInstanceError as
+    the property's "observe at" says; fields raise FrozenInstanceError everywhere -/
+def slotsWitness : Inst :=
+  ⟨[⟨0, true, false, false, true, true, false, [⟨0, .none, true, true⟩]⟩], [(0, .atom (.int 1))], []⟩
+theorem slots_new_name_raises_typeerror :
+    raisedBy (setattr slotsWitness 100 (.atom .none)) = some .typeError ∧ raisedBy (delattr slotsWitness 100) = some .typeError ∧
+    raisedBy (setattr slotsWitness 0 (.atom .none)) = some .frozenInstance := by decide
 
 /-! ## the generated `__init__` -/
 
@@ -925,18 +1083,25 @@ theorem copy_with_meets_spec (self : Inst) (kw : List (Name × Obj)) (n : Nat)
 
 /-! ## `deep_copy_with` -/
 
+theorem deepCopyable_init (self : Inst) (h : specDeepCopyable self = true) :
+    ∀ f ∈ fieldsOf self.cls, f.init = true → ∀ v, self.fields.lookup f.name = some v → v.copyable = true := by
+  intro f hf hi v hv
+  have := List.all_eq_true.mp h f hf
+  simpa [hi, hv] using this
+
 /-- the dict comprehension of `deep_copy_with` in closed form: one deep copy per init field, allocator threaded through -/
 theorem readCur_spec (self : Inst) : ∀ (fs : List FieldR) (n : Nat),
     (fs.map (·.name)).Nodup → (∀ f ∈ fs, f.init = true → (self.fields.lookup f.name).isSome = true) →
+    (∀ f ∈ fs, f.init = true → ∀ v, self.fields.lookup f.name = some v → v.copyable = true) →
     ∃ cur n', readCur true true self fs n = .ok (cur, n') ∧ n ≤ n' ∧
       (∀ k, (cur.lookup k).isSome = true → k ∈ initNames fs) ∧
       (∀ f ∈ fs, f.init = true → ∃ s m, self.fields.lookup f.name = some s ∧ n ≤ m ∧
           cur.lookup f.name = some (deepcopy s m).1) := by
   intro fs
   induction fs with
-  | nil => intro n _ _; exact ⟨[], n, rfl, Nat.le_refl _, by simp, by simp⟩
+  | nil => intro n _ _ _; exact ⟨[], n, rfl, Nat.le_refl _, by simp, by simp⟩
   | cons f fs ih =>
-    intro n hnd hset
+    intro n hnd hset hcp
     have hnd' : f.name ∉ fs.map (·.name) ∧ (fs.map (·.name)).Nodup := List.nodup_cons.mp hnd
     have hne : ∀ g ∈ fs, g.name ≠ f.name := fun g hg he => hnd'.1 (he ▸ List.mem_map.mpr ⟨g, hg, rfl⟩)
     simp only [readCur, Bool.true_and]
@@ -946,9 +1111,11 @@ theorem readCur_spec (self : Inst) : ∀ (fs : List FieldR) (n : Nat),
       | none => simp [hsv] at hs
       | some v =>
         obtain ⟨r, n2, hr, hle, hkeys, hvals⟩ := ih (deepcopy v n).2 hnd'.2 (fun g hg => hset g (by simp [hg]))
+          (fun g hg => hcp g (by simp [hg]))
+        have hcv : v.copyable = true := hcp f (by simp) hi v hsv
         have hle1 := (deepcopy_fresh.1 v n).1
         refine ⟨(f.name, (deepcopy v n).1) :: r, n2, ?_, by omega, ?_, ?_⟩
-        · simp [hi, hr]
+        · simp [hi, hr, hcv, deepcopyRaises]
         · intro k hk
           rw [initNames_cons]; simp only [hi, ↓reduceIte, List.mem_cons]
           by_cases hkf : k = f.name
@@ -961,7 +1128,7 @@ theorem readCur_spec (self : Inst) : ∀ (fs : List FieldR) (n : Nat),
           · obtain ⟨s, m, h1, h2, h3⟩ := hvals g hg hgi
             exact ⟨s, m, h1, by omega, by rw [lookup_cons_ne' _ _ _ _ (hne g hg)]; exact h3⟩
     · have hi' : f.init = false := by simpa using hi
-      obtain ⟨r, n2, hr, hle, hkeys, hvals⟩ := ih n hnd'.2 (fun g hg => hset g (by simp [hg]))
+      obtain ⟨r, n2, hr, hle, hkeys, hvals⟩ := ih n hnd'.2 (fun g hg => hset g (by simp [hg])) (fun g hg => hcp g (by simp [hg]))
       refine ⟨r, n2, by simp [hi', hr], hle, ?_, ?_⟩
       · intro k hk; rw [initNames_cons]; simp [hi', hkeys k hk]
       · intro g hg hgi
@@ -1002,7 +1169,7 @@ theorem mergeDict_lookup (a b : List (Name × Obj)) (k : Name) :
     allocator invariant "every live identity of the receiver is below `n`"; the receiver is what it was. -/
 theorem deep_copy_with_meets_spec_fresh (self : Inst) (kw : List (Name × Obj)) (n : Nat)
     (hwf : wfCls self.cls = true) (hself : InstOk self) (hkw : specKwValid self.cls kw = true)
-    (hlive : ∀ i ∈ self.mutIds, i < n) :
+    (hlive : ∀ i ∈ self.mutIds, i < n) (hcp : specDeepCopyable self = true) :
     ∃ out, deepCopyWith self kw n = .ok out ∧ CopyMeets true self kw out.result ∧ out.selfAfter = some self ∧
       out.journal = postInitEvents self.cls ∧ n ≤ out.next ∧
       (∀ f ∈ fieldsOf self.cls, f.init = true → kw.lookup f.name = none →
@@ -1014,6 +1181,7 @@ theorem deep_copy_with_meets_spec_fresh (self : Inst) (kw : List (Name × Obj)) 
     obtain ⟨kv, hm, he⟩ := mem_of_lookup_isSome _ _ hs
     exact (mem_initNames _ hnd f hf).mp (he ▸ hkwm kv hm)
   obtain ⟨cur, n1, hread, hle1, hkeys, hvals⟩ := readCur_spec self (fieldsOf self.cls) n hnd (fun f hf hi => (hself f hf).1 hi)
+    (deepCopyable_init self hcp)
   obtain ⟨m, hm, hcls, _, hnext, hj, hfields⟩ := construct_kw self.cls (mergeDict cur kw) n1 hnd
     (fun kv hkv => by
       have hs := lookup_isSome_of_mem _ kv hkv
@@ -1076,12 +1244,119 @@ theorem deep_copy_with_meets_spec_fresh (self : Inst) (kw : List (Name × Obj)) 
     nodes of those fields are *new* — above the allocator — hence shared with nothing that existed before the call.) -/
 theorem deep_copy_with_meets_spec (self : Inst) (kw : List (Name × Obj)) (n : Nat)
     (hwf : wfCls self.cls = true) (hself : InstOk self) (hkw : specKwValid self.cls kw = true)
-    (hlive : ∀ i ∈ self.mutIds, i < n) :
+    (hlive : ∀ i ∈ self.mutIds, i < n) (hcp : specDeepCopyable self = true) :
     ∃ out, deepCopyWith self kw n = .ok out ∧ CopyMeets true self kw out.result ∧ out.selfAfter = some self ∧
       out.journal = postInitEvents self.cls ∧ n ≤ out.next := by
-  obtain ⟨out, a, b, c, d, e, _⟩ := deep_copy_with_meets_spec_fresh self kw n hwf hself hkw hlive
+  obtain ⟨out, a, b, c, d, e, _⟩ := deep_copy_with_meets_spec_fresh self kw n hwf hself hkw hlive hcp
   exact ⟨out, a, b, c, d, e⟩
 
+
+/-- a value that cannot be deep-copied in some init field: the comprehension of `deep_copy_with` raises the TypeError of `deepcopy` -/
+theorem readCur_uncopyable (self : Inst) : ∀ (fs : List FieldR) (n : Nat),
+    (∀ f ∈ fs, f.init = true → (self.fields.lookup f.name).isSome = true) →
+    (∃ f ∈ fs, f.init = true ∧ ∃ v, self.fields.lookup f.name = some v ∧ v.copyable = false) →
+    readCur true true self fs n = .error .typeError := by
+  intro fs
+  induction fs with
+  | nil => intro n _ h; obtain ⟨f, hf, _⟩ := h; simp at hf
+  | cons f fs ih =>
+    intro n hset hex
+    simp only [readCur, Bool.true_and]
+    by_cases hi : f.init = true
+    · have hs := hset f (by simp) hi
+      cases hsv : self.fields.lookup f.name with
+      | none => simp [hsv] at hs
+      | some v =>
+        by_cases hcv : v.copyable = true
+        · have hrest : ∃ g ∈ fs, g.init = true ∧ ∃ w, self.fields.lookup g.name = some w ∧ w.copyable = false := by
+            obtain ⟨g, hg, hgi, w, hw, hwc⟩ := hex
+            simp only [List.mem_cons] at hg
+            rcases hg with rfl | hg
+            · rw [hsv] at hw; cases hw; simp [hcv] at hwc
+            · exact ⟨g, hg, hgi, w, hw, hwc⟩
+          have := ih (deepcopy v n).2 (fun g hg => hset g (by simp [hg])) hrest
+          simp [hi, hcv, deepcopyRaises, this]
+        · simp [hi, hcv, deepcopyRaises, cfg_deepcopy_bare]
+    · have hi' : f.init = false := by simpa using hi
+      have hrest : ∃ g ∈ fs, g.init = true ∧ ∃ w, self.fields.lookup g.name = some w ∧ w.copyable = false := by
+        obtain ⟨g, hg, hgi, w, hw, hwc⟩ := hex
+        simp only [List.mem_cons] at hg
+        rcases hg with rfl | hg
+        · simp [hi'] at hgi
+        · exact ⟨g, hg, hgi, w, hw, hwc⟩
+      simpa [hi'] using ih n (fun g hg => hset g (by simp [hg])) hrest
+
+/-- **no deep copy of what cannot be deep-copied.**  If an init field of the receiver holds — anywhere inside its value, next to whatever
+    ordinary lists and dicts — an object that `copy.deepcopy` cannot duplicate, `deep_copy_with` raises TypeError, **whatever the keywords**
+    (also when that very field is replaced: every init field is deep-copied before the keywords are merged in): no instance is returned,
+    so nothing is shared.  Rests on `cfg_deepcopy_bare` (the call is the bare `copy.deepcopy`, outside any `try`). -/
+theorem deep_copy_with_uncopyable_raises (self : Inst) (kw : List (Name × Obj)) (n : Nat) (hself : InstOk self)
+    (h : specDeepCopyable self = false) : deepCopyWith self kw n = .error .typeError := by
+  have hex : ∃ f ∈ fieldsOf self.cls, f.init = true ∧ ∃ v, self.fields.lookup f.name = some v ∧ v.copyable = false := by
+    obtain ⟨f, hf, hn⟩ := List.all_eq_false.mp h
+    cases hi : f.init with
+    | false => simp [hi] at hn
+    | true =>
+      cases hv : self.fields.lookup f.name with
+      | none => simp [hi, hv] at hn
+      | some v => exact ⟨f, hf, hi, v, hv, by simpa [hi, hv] using hn⟩
+  have := readCur_uncopyable self (fieldsOf self.cls) n (fun f hf hi => (hself f hf).1 hi) hex
+  simp [deepCopyWith, runCopy, deepCopyWithBody, this]
+
+/-- **C11, deep_copy_with, for every instance that is returned.**  Whatever the field values hold — also objects that cannot be
+    deep-copied —: IF `deep_copy_with` returns an instance, that instance is of the same class, its replaced fields hold the objects
+    passed, and every other init field holds a structurally equal value whose mutable nodes are all new (shared with nothing that
+    existed before the call); the receiver is what it was.  (No hypothesis about copyability: a receiver that cannot be deep-copied
+    yields no instance at all, `deep_copy_with_uncopyable_raises`.) -/
+theorem deep_copy_with_returned_instance_meets_spec (self : Inst) (kw : List (Name × Obj)) (n : Nat) (out : CopyOut)
+    (hwf : wfCls self.cls = true) (hself : InstOk self) (hkw : specKwValid self.cls kw = true)
+    (hlive : ∀ i ∈ self.mutIds, i < n) (h : deepCopyWith self kw n = .ok out) :
+    CopyMeets true self kw out.result ∧ out.selfAfter = some self ∧
+      (∀ f ∈ fieldsOf self.cls, f.init = true → kw.lookup f.name = none →
+        ∃ r, out.result.fields.lookup f.name = some r ∧ ∀ i ∈ r.mutIds, n ≤ i) := by
+  by_cases hcp : specDeepCopyable self = true
+  · obtain ⟨out', h1, h2, h3, _, _, h6⟩ := deep_copy_with_meets_spec_fresh self kw n hwf hself hkw hlive hcp
+    rw [h] at h1; cases h1
+    exact ⟨h2, h3, h6⟩
+  · have := deep_copy_with_uncopyable_raises self kw n hself (by simpa using hcp)
+    rw [this] at h; cases h
+
+/-- the deep clause of the property text read literally, for EVERY field that is not replaced — `init=False` fields included -/
+def deep_copy_shares_nothing_full : Prop :=
+  ∀ (self : Inst) (kw : List (Name × Obj)) (n : Nat) (out : CopyOut), wfCls self.cls = true → InstOk self → specKwValid self.cls kw = true →
+    (∀ i ∈ self.mutIds, i < n) → deepCopyWith self kw n = .ok out →
+    ∀ f ∈ fieldsOf self.cls, kw.lookup f.name = none → ∃ r, out.result.fields.lookup f.name = some r ∧ ∀ i ∈ r.mutIds, i ∉ self.mutIds
+
+/-- `@frozen_dataclass class S: f0: Any; f1: Any = field(default=<object holding a list>, init=False)` -/
+def exSharedCls : Cls :=
+  [⟨0, true, false, false, true, false, false, [⟨0, .none, true, true⟩, ⟨1, .value (.box .obj 5 [.box .list 6 []]), false, true⟩]⟩]
+def exSharedInst : Inst := ⟨exSharedCls, [(0, .box .list 10 []), (1, .box .obj 5 [.box .list 6 []])], []⟩
+theorem exSharedInst_constructed : construct exSharedCls [] [(0, .box .list 10 [])] 20 = .ok ⟨exSharedInst, 20, []⟩ := by rfl
+
+/-- **witness (region `deepCopySharesInitFalseDefault`).**  The "deep" copy of an instance whose `init=False` field has a plain default holds, in
+    that field, the very object the original holds — the default is one object that the generated `__init__` assigns to every instance; whatever
+    mutable it holds (here an object with a list: identities 5 and 6) is shared between original and deep copy.  `CopyMeets true` holds all
+    the same (`specExpect` reads such a field as `equalOnly`); the literal reading `deep_copy_shares_nothing_full` does not. -/
+theorem deep_copy_shares_initFalse_default : ¬ deep_copy_shares_nothing_full := by
+  intro h
+  have hok : InstOk exSharedInst := (construct_instOk _ _ _ _ _ (by decide) exSharedInst_constructed).1
+  obtain ⟨out, hout⟩ : ∃ out, deepCopyWith exSharedInst [] 20 = .ok out := by
+    obtain ⟨o, h1, _⟩ := deep_copy_with_meets_spec exSharedInst [] 20 (by decide) hok (by decide) (by decide) (by decide)
+    exact ⟨o, h1⟩
+  have hdec : (match deepCopyWith exSharedInst [] 20 with
+      | .ok o => (o.result.fields.lookup 1).map (·.mutIds) | .error _ => none) = some [5, 6] := by decide
+  rw [hout] at hdec
+  have hf : fieldsOf exSharedInst.cls =
+      [⟨0, .none, true, true, true⟩, ⟨1, .value (.box .obj 5 [.box .list 6 []]), false, true, true⟩] := rfl
+  obtain ⟨r, hr, hdis⟩ := h exSharedInst [] 20 out (by decide) hok (by decide) (by decide) hout ⟨1, .value (.box .obj 5 [.box .list 6 []]), false, true, true⟩
+    (by rw [hf]; exact List.mem_cons_of_mem _ (List.mem_cons_self ..)) (by decide)
+  simp only [hr, Option.map] at hdec
+  have h5 : 5 ∈ r.mutIds := by rw [Option.some.inj hdec]; simp
+  exact hdis 5 h5 (by decide)
+
+-- the region, and what the proved contract says there
+example : specSharedDefaultFields exSharedCls = [1] := by decide
+example : specExpect true [] ⟨1, .value (.box .obj 5 [.box .list 6 []]), false, true, true⟩ = .equalOnly := by decide
 
 /-! ## `==`, `hash`, `<` are those of the tuple of fields -/
 
@@ -1198,6 +1473,28 @@ theorem lt_is_tuple_lex (a b : Inst) (hwf : wfCls a.cls = true) (ha : InstOk a) 
   rw [hcf, hta, htb]
   cases hl : lexLt (specTuple a) (specTuple b) <;> simp [hl]
 
+/-- **`<=` (and with the sides exchanged `>=`) is the tuple comparison too**: smaller, or equal, field tuples — whenever `<` is defined at all -/
+theorem le_is_lt_or_eq (a b : Inst) (hwf : wfCls a.cls = true) (ha : InstOk a) (hb : InstOk b) (hcls : a.cls = b.cls)
+    (hord : declaredOrder a.cls = true) :
+    leOp a b = (match lexLt (specTuple a) (specTuple b) with
+      | some true => .ok true | some false => .ok (veqL (specTuple a) (specTuple b)) | none => .error .typeError) := by
+  have hlt := lt_is_tuple_lex a b hwf ha hb hcls hord
+  obtain ⟨oc, h1, h2⟩ := orderPart_of_declared a.cls hord
+  have hcf : cmpFields oc = cmpFields a.cls := by simp [cmpFields, h2]
+  have hta := tupleOf_cmp a hwf ha
+  have htb := tupleOf_cmp b (hcls ▸ hwf) hb
+  rw [← hcls] at htb
+  unfold leOp
+  rw [hlt]
+  cases hl : lexLt (specTuple a) (specTuple b) with
+  | none => rfl
+  | some r =>
+    cases r with
+    | true => rfl
+    | false =>
+      simp only [h1]
+      rw [hcf, hta, htb]
+
 /-- … and TypeError when no class of the hierarchy was decorated with order=True, or when the classes differ -/
 theorem lt_typeerror_without_order (a b : Inst) (h : ∀ l ∈ a.cls, l.decorated = true → l.order = false) :
     ltOp a b = .error .typeError := by
@@ -1298,13 +1595,14 @@ theorem copy_with_original_unchanged (self : Inst) (kw : List (Name × Obj)) (n 
 /-- same class; replaced fields are the objects passed; the others are the same value as the original's (and `==` to it
     wherever no instance of a plain class is involved: `deep_copy_with_fields_python_eq`) -/
 theorem deep_copy_with_fields (self : Inst) (kw : List (Name × Obj)) (n : Nat)
-    (hwf : wfCls self.cls = true) (hself : InstOk self) (hkw : specKwValid self.cls kw = true) (hlive : ∀ i ∈ self.mutIds, i < n) :
+    (hwf : wfCls self.cls = true) (hself : InstOk self) (hkw : specKwValid self.cls kw = true) (hlive : ∀ i ∈ self.mutIds, i < n)
+    (hcp : specDeepCopyable self = true) :
     ∃ out, deepCopyWith self kw n = .ok out ∧ out.result.cls = self.cls ∧
       ∀ f ∈ fieldsOf self.cls,
         match kw.lookup f.name with
         | some v => out.result.fields.lookup f.name = some v
         | none => ∃ s r, self.fields.lookup f.name = some s ∧ out.result.fields.lookup f.name = some r ∧ s.seq r = true := by
-  obtain ⟨out, h1, ⟨hc, hf⟩, _, _, _⟩ := deep_copy_with_meets_spec self kw n hwf hself hkw hlive
+  obtain ⟨out, h1, ⟨hc, hf⟩, _, _, _⟩ := deep_copy_with_meets_spec self kw n hwf hself hkw hlive hcp
   refine ⟨out, h1, hc, ?_⟩
   intro f hfm
   have := hf f hfm
@@ -1325,12 +1623,13 @@ theorem deep_copy_with_fields (self : Inst) (kw : List (Name × Obj)) (n : Nat)
     frozen says nothing about the mutability of what is held);
     Python's `==` holds too wherever the original value holds no instance of a class with identity equality -/
 theorem deep_copy_no_shared_mutable (self : Inst) (kw : List (Name × Obj)) (n : Nat)
-    (hwf : wfCls self.cls = true) (hself : InstOk self) (hkw : specKwValid self.cls kw = true) (hlive : ∀ i ∈ self.mutIds, i < n) :
+    (hwf : wfCls self.cls = true) (hself : InstOk self) (hkw : specKwValid self.cls kw = true) (hlive : ∀ i ∈ self.mutIds, i < n)
+    (hcp : specDeepCopyable self = true) :
     ∃ out, deepCopyWith self kw n = .ok out ∧
       ∀ f ∈ fieldsOf self.cls, f.init = true → kw.lookup f.name = none →
         ∃ s r, self.fields.lookup f.name = some s ∧ out.result.fields.lookup f.name = some r ∧ s.seq r = true ∧
           (∀ i ∈ r.mutIds, i ∉ s.mutIds) ∧ (∀ i ∈ r.mutIds, i ∉ self.mutIds) ∧ (s.noObj = true → s.veq r = true) := by
-  obtain ⟨out, h1, ⟨_, hf⟩, _, _, _⟩ := deep_copy_with_meets_spec self kw n hwf hself hkw hlive
+  obtain ⟨out, h1, ⟨_, hf⟩, _, _, _⟩ := deep_copy_with_meets_spec self kw n hwf hself hkw hlive hcp
   refine ⟨out, h1, ?_⟩
   intro f hfm hi hl
   have := hf f hfm
@@ -1342,9 +1641,10 @@ theorem deep_copy_no_shared_mutable (self : Inst) (kw : List (Name × Obj)) (n :
   exact d i hir (by simp only [Inst.mutIds, List.mem_append]; exact Or.inl (mutIds_field_subset _ _ _ a i his))
 
 theorem deep_copy_original_unchanged (self : Inst) (kw : List (Name × Obj)) (n : Nat)
-    (hwf : wfCls self.cls = true) (hself : InstOk self) (hkw : specKwValid self.cls kw = true) (hlive : ∀ i ∈ self.mutIds, i < n) :
+    (hwf : wfCls self.cls = true) (hself : InstOk self) (hkw : specKwValid self.cls kw = true) (hlive : ∀ i ∈ self.mutIds, i < n)
+    (hcp : specDeepCopyable self = true) :
     ∃ out, deepCopyWith self kw n = .ok out ∧ out.selfAfter = some self := by
-  obtain ⟨out, h1, _, h2, _, _⟩ := deep_copy_with_meets_spec self kw n hwf hself hkw hlive
+  obtain ⟨out, h1, _, h2, _, _⟩ := deep_copy_with_meets_spec self kw n hwf hself hkw hlive hcp
   exact ⟨out, h1, h2⟩
 
 /-! ## keywords that do not name an init field are refused -/
@@ -1635,21 +1935,23 @@ theorem readCur_live (self : Inst) : ∀ (fs : List FieldR) (n n' : Nat) (cur : 
     · split at h
       · cases h
       · rename_i v hv
-        simp only [↓reduceIte] at h
-        have hm := (deepcopy_fresh.1 v n).1
-        cases hr : readCur true true self fs (deepcopy v n).2 with
-        | error e => simp [hr] at h
-        | ok q =>
-          obtain ⟨r, n2⟩ := q
-          simp only [hr] at h
-          cases h
-          obtain ⟨h1, h2⟩ := ih _ _ _ hr (hs.mono hm)
-          refine ⟨by omega, ?_⟩
-          intro kv hkv i hi
-          simp only [List.mem_cons] at hkv
-          rcases hkv with rfl | hkv
-          · have := deepcopy_live.1 v n (hs _ (lookup_mem _ _ _ hv)) i hi; omega
-          · exact h2 kv hkv i hi
+        by_cases hcv : v.copyable = true
+        · simp only [deepcopyRaises, hcv, Bool.not_true, Bool.false_and, Bool.false_eq_true, ↓reduceIte] at h
+          have hm := (deepcopy_fresh.1 v n).1
+          cases hr : readCur true true self fs (deepcopy v n).2 with
+          | error e => simp [hr] at h
+          | ok q =>
+            obtain ⟨r, n2⟩ := q
+            simp only [hr] at h
+            cases h
+            obtain ⟨h1, h2⟩ := ih _ _ _ hr (hs.mono hm)
+            refine ⟨by omega, ?_⟩
+            intro kv hkv i hi
+            simp only [List.mem_cons] at hkv
+            rcases hkv with rfl | hkv
+            · have := deepcopy_live.1 v n (hs _ (lookup_mem _ _ _ hv)) i hi; omega
+            · exact h2 kv hkv i hi
+        · simp [deepcopyRaises, hcv, cfg_deepcopy_bare] at h
 
 /-- **both copy methods preserve the allocator invariant**: if the class defaults, the receiver and the keyword objects are
     below `n`, then the copy (and still the receiver) is below the returned allocator -/
@@ -1940,6 +2242,8 @@ def GoodStep (h : Hist) : Step → StepOut → Prop
     | none => out = .noInst
     | some self =>
       if specKwValid self.cls kw = true then
+        if (deep && !specDeepCopyable self) = true then out = .raised .typeError     -- nothing to deep-copy from: no instance
+        else
         ∃ o, out = .copied self o ∧ CopyMeets deep self kw o.result ∧ o.selfAfter = some self ∧ o.journal = postInitEvents self.cls ∧
           (deep = true → ∀ f ∈ fieldsOf self.cls, f.init = true → kw.lookup f.name = none →
             ∃ r, o.result.fields.lookup f.name = some r ∧ ∀ i ∈ r.mutIds, i ∉ h.mutIds)
@@ -2022,12 +2326,20 @@ theorem stepH_good (h : Hist) (s : Step) (hok : HistOk h) (hv : StepValid h s) :
       by_cases hvalid : specKwValid self.cls kw = true
       · cases deep with
         | true =>
-          obtain ⟨out, h1, h2, h3, h4, h5, h6⟩ := deep_copy_with_meets_spec_fresh self kw h.next hwf hio hvalid hlive
+          by_cases hcp : specDeepCopyable self = true
+          case neg =>
+            have hcp' : specDeepCopyable self = false := by simpa using hcp
+            have he := deep_copy_with_uncopyable_raises self kw h.next hio hcp'
+            have hst : stepH h (.copy true kw on) = (h, .raised .typeError) := by
+              simp [stepH, hget, cfg_copy_helpers_stateless, he]
+            rw [hst]
+            exact ⟨by simp [GoodStep, hget, hvalid, hcp'], hok⟩
+          obtain ⟨out, h1, h2, h3, h4, h5, h6⟩ := deep_copy_with_meets_spec_fresh self kw h.next hwf hio hvalid hlive hcp
           have hst : stepH h (.copy true kw on) = (⟨h.insts ++ [out.result], out.next⟩, .copied self out) := by
             simp [stepH, hget, cfg_copy_helpers_stateless, h1]
           rw [hst]
           refine ⟨?_, ?_⟩
-          · simp only [GoodStep, hget, hvalid, ↓reduceIte]
+          · simp only [GoodStep, hget, hvalid, ↓reduceIte, hcp, Bool.not_true, Bool.and_false, Bool.false_eq_true]
             refine ⟨out, rfl, h2, h3, h4, ?_⟩
             intro _ f hf hi hl
             obtain ⟨r, hr, hfresh⟩ := h6 f hf hi hl
@@ -2044,7 +2356,7 @@ theorem stepH_good (h : Hist) (s : Step) (hok : HistOk h) (hv : StepValid h s) :
             simp [stepH, hget, cfg_copy_helpers_stateless, h1]
           rw [hst]
           refine ⟨?_, ?_⟩
-          · simp only [GoodStep, hget, hvalid, ↓reduceIte]
+          · simp only [GoodStep, hget, hvalid, ↓reduceIte, Bool.false_and, Bool.false_eq_true]
             exact ⟨out, rfl, h2, h3, h4, by intro hd; cases hd⟩
           · exact histOk_append h hok self hself out h5 (copyWith_constructed self kw h.next out h1)
               (copy_with_live self kw h.next out h1 (hok.clsBelow self hself) (hok.below self hself) hkwb).2
@@ -2191,8 +2503,25 @@ example : fieldMutIds (copyWith exFzInst [] 80) 0 = some [61] ∧
 -- what the theorem gives for this instance
 example : ∃ out, deepCopyWith exFzInst [] 80 = .ok out ∧ CopyMeets true exFzInst [] out.result :=
   let ⟨out, h1, h2, _⟩ := deep_copy_with_meets_spec exFzInst [] 80 (by decide)
-    (construct_instOk _ _ _ _ _ (by decide) exFzInst_constructed).1 (by decide) (by decide)
+    (construct_instOk _ _ _ _ _ (by decide) exFzInst_constructed).1 (by decide) (by decide) (by decide)
   ⟨out, h1, h2⟩
+
+/-! a worker whose `state` dict holds a lock next to an ordinary list: `{'guard': <lock>, 'pending': [1, 2]}` -/
+def exLockInst : Inst :=
+  ⟨[exB, exA], [(0, .box .dict 100 [.atom (.str [103]), .atom (.unc 101), .atom (.str [112]), .box .list 102 [.atom (.int 1), .atom (.int 2)]]),
+                (1, .box .list 103 []), (2, .atom (.int 5))], []⟩
+theorem exLockInst_constructed : construct [exB, exA] []
+    [(0, .box .dict 100 [.atom (.str [103]), .atom (.unc 101), .atom (.str [112]), .box .list 102 [.atom (.int 1), .atom (.int 2)]]),
+     (1, .box .list 103 [])] 110 = .ok ⟨exLockInst, 110, []⟩ := by rfl
+example : specDeepCopyable exLockInst = false ∧ specDeepCopyable exInst = true ∧ specDeepCopyable exFzInst = true := by decide
+-- the unchanged code: the TypeError of deepcopy reaches the caller, whatever is replaced; copy_with is not affected
+example : raisedExc (deepCopyWith exLockInst [] 110) = some .typeError ∧ raisedExc (deepCopyWith exLockInst [(0, .atom .none)] 110) = some .typeError := by decide
+example : deepCopyWith exLockInst [(1, .atom .none)] 110 = .error .typeError :=
+  deep_copy_with_uncopyable_raises _ _ _ (construct_instOk _ _ _ _ _ (by decide) exLockInst_constructed).1 (by decide)
+example : fieldMutIds (copyWith exLockInst [(1, .atom .none)] 110) 0 = some [100, 102] := by decide
+-- a `deepcopy` that falls back to the object itself when it cannot be copied (not bare: read pessimistically) would hand out an instance
+-- that shares the dict and the list inside it with the original
+example : fieldMutIds (runCopy (.build false true .typeSelf true) exLockInst [] 110) 0 = some [100, 102] := by decide
 -- a body without `deepcopy` shares the list behind the frozen instance (as does a `deepcopy` that returns frozen instances as they are)
 example : fieldMutIds (runCopy (.build false true .typeSelf true) exFzInst [] 80) 0 = some [61] := by decide
 -- field 0 is unhashable (the list inside), so is the instance; Python's `==` between original and deep copy of field 0 holds
@@ -2248,5 +2577,75 @@ example : ((histField (endOf ⟨[exInst], 30⟩ exHist) 2 0).map (fun v => v.seq
 example : (histField (endOf ⟨[exInst], 30⟩ exHist) 5 0).map Obj.mutIds = some [47] ∧
     (histField (endOf ⟨[exInst], 30⟩ exHist) 0 0).map Obj.mutIds = some [10] := by decide
 
+
+/-! ## what lies outside the guards: witnesses -/
+
+/-- `@frozen_dataclass class L: f0: Any; log: Any = field(default_factory=list, init=False)` with `log == [[]]` after construction -/
+def exLogCls : Cls := [⟨0, true, false, false, true, false, false, [⟨0, .none, true, true⟩, ⟨1, .factory (.box .list 0 []), false, true⟩]⟩]
+def exLogInst : Inst := ⟨exLogCls, [(0, .atom (.int 1)), (1, .box .list 30 [])], []⟩
+
+/-- **the complement of `mutSafe`** (guard of `history_copies_meet_spec`): a change made in place to the object behind an `init=False` field
+    is LOST by a copy — the generated `__init__` recomputes such a field (here: a new empty list from the factory), neither copy method
+    can pass it on.  `x.log.append(7); x.copy_with().log == []`.  (Observed on the real library as well; the histories of the correspondence
+    run stay inside `mutSafe`.) -/
+theorem change_below_initFalse_field_is_lost :
+    mutSafe exLogInst 30 = false ∧
+    (match copyWith (exLogInst.mutate 30 (.push [.atom (.int 7)])) [] 40 with
+     | .ok o => (o.result.fields.lookup 1).map (fun v => v.seq (.box .list 0 [])) | .error _ => none) = some true ∧
+    ((exLogInst.mutate 30 (.push [.atom (.int 7)])).fields.lookup 1).map (fun v => v.seq (.box .list 0 [.atom (.int 7)])) = some true := by
+  decide
+
+/-- **outside `wfCls`: an `init=False` field without default** (the pattern "set in `__post_init__` with `object.__setattr__`", which the model's
+    hooks — they only journal — do not perform): in the model the attribute stays unset, a copy leaves it unset, and `==` on such an instance
+    is an AttributeError.  No theorem speaks about such classes; the correspondence run does not generate them. -/
+def exUnsetCls : Cls := [⟨0, true, false, false, true, false, false, [⟨0, .none, true, true⟩, ⟨1, .none, false, true⟩]⟩]
+theorem initFalse_without_default_is_outside :
+    wfCls exUnsetCls = false ∧
+    (match construct exUnsetCls [] [(0, .atom (.int 1))] 10 with
+     | .ok m => (m.inst.fields.map (·.1), (match copyWith m.inst [] m.next with | .ok o => some (o.result.fields.map (·.1)) | .error _ => none),
+                 (match eqOp m.inst m.inst with | .ok _ => none | .error e => some e))
+     | .error _ => ([], none, none)) = ([0], some [0], some .attributeError) := by
+  decide
+
+/-! ### an independent reading of "what `__post_init__` does"
+
+Walk down the hierarchy from the instance's class through the decorated classes until one defines a hook of its own (that one included):
+the user's hook runs iff such a class exists — once, and first —, followed by one validation for every type-safe class on the way (each of
+them wrapped what it found below it). -/
+
+def hookPath : Cls → Cls
+  | [] => []
+  | l :: rest => if !l.decorated then hookPath rest else if l.postInit then [l] else l :: hookPath rest
+
+def specPostInitEvents (c : Cls) : List Ev :=
+  (if (hookPath c).any (·.postInit) then [Ev.post] else []) ++ List.replicate ((hookPath c).filter (·.typeSafe)).length Ev.validate
+
+theorem replicate_snoc (n : Nat) : List.replicate n Ev.validate ++ [Ev.validate] = Ev.validate :: List.replicate n Ev.validate := by
+  induction n with
+  | zero => rfl
+  | succ k ih => simp [List.replicate_succ, ih]
+
+/-- **the user's hook runs at most once, and before every validation** — the model's journal is the independent reading above (rests on
+    the generated order facts of `new_post_init`) -/
+theorem postInitEvents_eq_spec : ∀ c : Cls, postInitEvents c = specPostInitEvents c := by
+  intro c
+  have hcfg : postInitCallsOld = true ∧ postInitOldFirst = true := by decide
+  induction c with
+  | nil => rfl
+  | cons l rest ih =>
+    unfold specPostInitEvents at ih ⊢
+    by_cases hd : l.decorated = true
+    · by_cases hp : l.postInit = true
+      · cases hts : l.typeSafe <;> simp [postInitEvents, hookPath, hd, hp, hts, hcfg]
+      · have hp' : l.postInit = false := by simpa using hp
+        cases hts : l.typeSafe
+        · simp [postInitEvents, hookPath, hd, hp', hts, hcfg, ih]
+        · simp only [postInitEvents, hookPath, hd, hp', hts, hcfg, ih, Bool.not_true, Bool.false_eq_true, ↓reduceIte, List.any_cons,
+            Bool.false_or, List.filter_cons, List.length_cons, List.replicate_succ]
+          rw [List.append_assoc, replicate_snoc]
+    · have hd' : l.decorated = false := by simpa using hd
+      simp [postInitEvents, hookPath, hd', ih]
+
+example : specPostInitEvents [⟨2, true, true, false, true, false, false, []⟩, ⟨0, true, true, false, true, false, true, []⟩] = [.post, .validate, .validate] := by decide
 
 end PedVerif.Frozen
